@@ -5,6 +5,7 @@ import (
 	"strings"
 	"sync"
 
+	"github.com/elk-language/elk/concurrent"
 	"github.com/elk-language/elk/indent"
 	"github.com/elk-language/elk/lexer/colorizer"
 	"github.com/elk-language/elk/position"
@@ -307,6 +308,7 @@ func (e *SyncDiagnosticList) AddInfo(message string, loc *position.Location) {
 
 // Add a new diagnostic.
 func (e *SyncDiagnosticList) Append(err *Diagnostic) {
+	concurrent.VerifPoint("diagnostic.append")
 	e.Mutex.Lock()
 	e.DiagnosticList = append(e.DiagnosticList, err)
 	e.Mutex.Unlock()
